@@ -52,7 +52,8 @@ CHECKS = {
             "enabled constraint re-executed alone through the real routine neither fails nor prunes, and for exact "
             "propagators the result equals the greatest common fixpoint computed by the specification. spec/Triggers.tla "
             "checks, for the masks recorded from the real get_triggers_* functions, that no unwatched bound change can "
-            "make a constraint fail or prune (trigger sufficiency); spec/MechTrace.tla replays strict mechanism-level "
+            "make a constraint fail or prune (trigger sufficiency; for the circuit constraints: fail, on the explicit "
+            "definition of their algorithm); spec/MechTrace.tla replays strict mechanism-level "
             "traces through NucsMech's operators (drift only).", TRUST_ENGINE,
             TECH_ENGINE + "; TLC lemma on recorded trigger masks (Triggers.tla)"),
     "C09": ("model_checking", "Every branching decision and every backtrack of every trace is a Branch/Resume step of "
@@ -98,7 +99,8 @@ CHECKS = {
             "statistics, meaning of the problem object). Random instances are run twice per mode and compared by "
             "spec/ModeTrace.tla.",
             "Trusted: TLC, spec/ProcessHistory.tla + ModeTrace.tla, harness/rec_history.py; three problem templates x "
-            "three configurations for the histories; numba cache keyed by the source hash.",
+            "four configurations for the histories (the fourth: a custom heuristic registered after a same-named "
+            "sibling, judged against the built-in it clones); numba cache keyed by the source hash.",
             "TLC-enumerated operation histories replayed into the real library (both execution modes) + TLA+ "
             "judgement of every step against fresh-interpreter reference runs"),
     "C16": ("exploration", "Monitoring level: the specification delimits the in-contract input space (Constraints!InContract, "
@@ -128,9 +130,12 @@ CHECKS = {
             "NucsAbs (nothing may follow a push above the height except the error), and a sweep of stack heights "
             "(1..6, 127, 128, 253..257, 300, 512, 1000) x search depths around the height x value heuristics x both "
             "execution modes, one process per scenario, judged by spec/Capacity.tla (right solutions, right depth "
-            "counter, normal exit).",
-            "Trusted: TLC, spec/NucsMech.tla, NucsAbs.tla, Capacity.tla; the sweep uses unconstrained problems "
-            "(n free variables); index-type limits of Problem.init were probed by hand (numpy raises).",
+            "counter, normal exit). Index-type limits: problems just below, at and above what the 8/16-bit arrays of "
+            "Problem.init can represent (cumulated constraint positions and parameters, numbers of constraints, domains, "
+            "views, registered algorithms), each with a known solution set, both modes, one process each, judged by "
+            "Capacity.tla: a refusal or exactly the right solutions.",
+            "Trusted: TLC, spec/NucsMech.tla, NucsAbs.tla, Capacity.tla; the stack sweep uses unconstrained problems "
+            "(n free variables); the limit scenarios are a fixed list (harness/p_capacity.py limit_scenarios).",
             "TLC model checking of NucsMech with small stacks + TLA+ trace validation of engine traces with tiny "
             "stacks + a process-level capacity sweep judged by spec/Capacity.tla"),
     "C20": ("model_checking", "spec/Models.tla holds definition-level predicates of the sixteen shipped combinatorial objects "
